@@ -22,8 +22,11 @@ namespace Pypyr.Flow
 structure GlobalRel (R : St → St → Prop) : Prop where
   refl : ∀ s, R s s
   trans : ∀ {a b c}, R a b → R b c → R a c
-  /-- anything that leaves `stack` and `trace` alone -/
-  frame : ∀ (a b : St), b.stack = a.stack → b.trace = a.trace → R a b
+  /-- anything that leaves `stack` and `trace` alone and only grows the virtual clock's record, the
+      exception counter and the ghost log of escapes (whatever it does to the context, the random
+      script, the out-of-domain flag) -/
+  frame : ∀ (a b : St), b.stack = a.stack → b.trace = a.trace → a.sleeps <+: b.sleeps →
+    a.nextExc ≤ b.nextExc → a.escapes <+: b.escapes → R a b
   /-- the probe appends one event -/
   emit : ∀ (a : St) (ev : Event), R a { a with trace := a.trace ++ [ev] }
   /-- `with context.pipeline_scope(pipeline)`: push on entry, pop in `finally` -/
@@ -37,18 +40,31 @@ structure GlobalRel (R : St → St → Prop) : Prop where
 /-- a body relates every input state to its output state -/
 def Pres (R : St → St → Prop) (b : Body) : Prop := ∀ s, R s (b s).1
 
+/-- discharges the growth side conditions of `GlobalRel.frame` on concrete record updates -/
+macro "grows" : tactic =>
+  `(tactic| first
+    | exact List.prefix_refl _
+    | exact List.prefix_append _ _
+    | exact Nat.le_refl _
+    | exact Nat.le_succ _
+    | (simp only []; first | exact List.prefix_refl _ | exact List.prefix_append _ _ | omega))
+
+/-- `G.frame` with the growth conditions discharged by `grows` -/
+macro "frame_tac " G:ident : tactic =>
+  `(tactic| exact GlobalRel.frame $G _ _ rfl rfl (by grows) (by grows) (by grows))
+
 variable {R : St → St → Prop}
 
 /-! ### raising, recording -/
 
-theorem rel_raiseNew (G : GlobalRel R) (s : St) (n m : String) : R s (raiseNew s n m).1 :=
-  G.frame _ _ rfl rfl
+theorem rel_raiseNew (G : GlobalRel R) (s : St) (n m : String) : R s (raiseNew s n m).1 := by
+  frame_tac G
 
-theorem rel_raiseExc (G : GlobalRel R) (s : St) (e : Exc) : R s (raiseExc s e).1 :=
-  G.frame _ _ rfl rfl
+theorem rel_raiseExc (G : GlobalRel R) (s : St) (e : Exc) : R s (raiseExc s e).1 := by
+  frame_tac G
 
-theorem rel_ctx (G : GlobalRel R) (s : St) (cx : Ctx) : R s { s with ctx := cx } :=
-  G.frame _ _ rfl rfl
+theorem rel_ctx (G : GlobalRel R) (s : St) (cx : Ctx) : R s { s with ctx := cx } := by
+  frame_tac G
 
 theorem rel_saveError (G : GlobalRel R) (d : StepDef) (s : St) (e : ExcV) (sw : Bool) :
     R s (saveError d s e sw).1 := by
@@ -62,7 +78,7 @@ theorem rel_saveError (G : GlobalRel R) (d : StepDef) (s : St) (e : ExcV) (sw : 
     · exact rel_raiseNew G _ _ _
 
 theorem rel_resetCounters (G : GlobalRel R) (fr : Frame) (c : CofCfg) (s : St) :
-    R s (resetCounters fr c s) := G.frame _ _ rfl rfl
+    R s (resetCounters fr c s) := by frame_tac G
 
 theorem rel_setIn (G : GlobalRel R) (d : StepDef) (s : St) : R s (setIn d s) := by
   unfold setIn; split
@@ -95,13 +111,16 @@ theorem invokeStep_rel (G : GlobalRel R) (fr : Frame) (body : Body) (callee : Co
     obtain ⟨s2, r2⟩ := q
     have h2 : R s1 s2 := by have := hc c s1; rw [hcs] at this; exact this
     have h3 : R s2 (resetCounters fr c s2) := rel_resetCounters G fr c s2
-    cases r2 <;> exact G.trans h1 (G.trans h2 h3)
+    have h4 : R s2 (raiseNew (resetLoopCounters fr s2) "AssertionError" "").1 := by frame_tac G
+    split
+    · cases r2 <;> exact G.trans h1 (G.trans h2 h3)
+    · cases r2 <;> first | exact G.trans h1 (G.trans h2 h4) | exact G.trans h1 h2
   | _ => exact h1
 
 /-! ### retry -/
 
 theorem retryIter_rel (G : GlobalRel R) (cfg : RetryCfg) (fr : Frame) (inner : Frame → Body)
-    (max : Option Nat) (hi : ∀ fr, Pres R (inner fr)) :
+    (max : Option Int) (hi : ∀ fr, Pres R (inner fr)) :
     ∀ (fuel k : Nat) (bo : BackoffState), Pres R (retryIter cfg fr inner max fuel k bo) := by
   intro fuel
   induction fuel with
@@ -123,8 +142,30 @@ theorem retryIter_rel (G : GlobalRel R) (cfg : RetryCfg) (fr : Frame) (inner : F
       all_goals first
         | exact h1
         | exact G.trans h1 (rel_raiseExc G _ _)
-        | (refine G.trans h1 (G.trans ?_ (ih _ _ _)); exact G.frame _ _ rfl rfl)
+        | (refine G.trans h1 ?_; frame_tac G)
+        | (refine G.trans h1 (G.trans ?_ (ih _ _ _)); frame_tac G)
     | _ => exact h1
+
+theorem retryFaulty_rel (G : GlobalRel R) (cfg : RetryCfg) (fr : Frame) (inner : Frame → Body)
+    (max : Option Int) (y : Bool) (hi : ∀ fr, Pres R (inner fr)) : Pres R (retryFaulty cfg fr inner max y) := by
+  intro s
+  unfold retryFaulty
+  simp only []
+  generalize hin : inner { fr with retryC := some 1 } { s with ctx := Ctx.set s.ctx "retryCounter" (.int 1) } = p
+  obtain ⟨s1, r⟩ := p
+  have h1 : R s s1 := by
+    have := hi { fr with retryC := some 1 } { s with ctx := Ctx.set s.ctx "retryCounter" (.int 1) }
+    rw [hin] at this
+    exact G.trans (rel_ctx G _ _) this
+  cases r with
+  | err e handled =>
+    simp only []
+    repeat' split
+    all_goals first
+      | exact h1
+      | exact G.trans h1 (rel_raiseExc G _ _)
+      | exact G.trans h1 (rel_raiseNew G _ _ _)
+  | _ => exact h1
 
 theorem retryLoop_rel (G : GlobalRel R) (cfg : RetryCfg) (fr : Frame) (inner : Frame → Body) (fuel : Nat)
     (hi : ∀ fr, Pres R (inner fr)) : Pres R (retryLoop cfg fr inner fuel) := by
@@ -137,6 +178,8 @@ theorem retryLoop_rel (G : GlobalRel R) (cfg : RetryCfg) (fr : Frame) (inner : F
     | exact G.trans h0 (rel_raiseExc G _ _)
     | exact G.trans h0 (rel_raiseNew G _ _ _)
     | exact G.trans h0 (retryIter_rel G cfg fr inner _ hi _ _ _ _)
+    | exact G.trans h0 (retryFaulty_rel G cfg fr inner _ _ hi _)
+    | exact h0
 
 /-! ### run / skip / swallow -/
 
@@ -157,20 +200,25 @@ theorem runConditional_rel (G : GlobalRel R) (d : StepDef) (inner : Body) (hi : 
       cases r with
       | err e handled =>
         simp only []
+        generalize hs1' : logEscape d s1 e handled = s1'
+        have h1' : R s s1' := by
+          rw [← hs1']; unfold logEscape; split
+          · exact h1
+          · refine G.trans h1 ?_; frame_tac G
         split
-        · exact G.trans h1 (rel_raiseExc G _ _)
+        · exact G.trans h1' (rel_raiseExc G _ _)
         · rename_i sw _
-          generalize hsv : (if handled = true then (s1, Res.ok) else saveError d s1 e sw) = q
+          generalize hsv : (if handled = true then (s1', Res.ok) else saveError d s1' e sw) = q
           obtain ⟨s2, r2⟩ := q
-          have h2 : R s1 s2 := by
+          have h2 : R s1' s2 := by
             by_cases hh : handled = true
             · simp [hh] at hsv; rw [← hsv.1]; exact G.refl _
             · simp [hh] at hsv
-              have := rel_saveError G d s1 e sw
+              have := rel_saveError G d s1' e sw
               rw [hsv] at this; exact this
           cases r2 <;> simp only [] <;> first
-            | (split <;> exact G.trans h1 h2)
-            | exact G.trans h1 h2
+            | (split <;> exact G.trans h1' h2)
+            | exact G.trans h1' h2
       | _ => exact h1
 
 /-! ### foreach -/
@@ -238,7 +286,7 @@ theorem whileIter_rel (G : GlobalRel R) (cfg : WhileCfg) (fr : Frame) (inner : F
         | exact h1
         | exact G.trans h1 (rel_raiseExc G _ _)
         | exact G.trans h1 (rel_raiseNew G _ _ _)
-        | (refine G.trans h1 (G.trans ?_ (ih _ _)); exact G.frame _ _ rfl rfl)
+        | (refine G.trans h1 (G.trans ?_ (ih _ _)); frame_tac G)
     | _ => exact h1
 
 theorem whileLoop_rel (G : GlobalRel R) (cfg : WhileCfg) (fr : Frame) (inner : Frame → Body) (fuel : Nat)
@@ -287,8 +335,10 @@ theorem runStepDescribed_rel (G : GlobalRel R) (d : StepDef) (body : Body) (call
   intro s
   unfold runStepDescribed
   split
-  · exact G.trans (rel_setIn G d s) (rel_raiseExc G _ _)
-  · exact runStepWith_rel G d body callee fuel hb hc s
+  · exact rel_raiseExc G _ _
+  · split
+    · exact G.trans (rel_setIn G d s) (rel_raiseExc G _ _)
+    · exact runStepWith_rel G d body callee fuel hb hc s
 
 /-! ### primitive step bodies -/
 
@@ -360,20 +410,20 @@ theorem contextClearAllStep_rel (G : GlobalRel R) : Pres R contextClearAllStep :
 
 theorem rel_emit_ctx (G : GlobalRel R) (s : St) (ev : Event) (cx : Ctx) :
     R s { s with ctx := cx, trace := s.trace ++ [ev] } :=
-  G.trans (G.emit s ev) (G.frame _ _ rfl rfl)
+  G.trans (G.emit s ev) (by frame_tac G)
 
 theorem probeStep_rel (G : GlobalRel R) : Pres R probeStep := by
   intro s
   unfold probeStep
   split
   · simp only []
-    generalize hS : St.mk _ s.stack (s.trace ++ [_]) s.sleeps s.nextExc s.rnd s.ood = S1
+    generalize hS : St.mk _ s.stack (s.trace ++ [_]) s.sleeps s.nextExc s.rnd s.ood s.escapes s.defaultBackoff = S1
     have h1 : R s S1 := by rw [← hS]; exact rel_emit_ctx G s _ _
     clear hS
     repeat' split
     all_goals first
       | exact h1
-      | exact G.trans h1 (G.frame _ _ rfl rfl)
+      | (refine G.trans h1 ?_; frame_tac G)
   · exact rel_raiseNew G _ _ _
 
 /-! ### pipeline preparation, `out` -/
@@ -395,7 +445,7 @@ theorem writeOut_fold_rel (G : GlobalRel R) (child : St) :
           match Ctx.get? child.ctx x.2 with
           | none => raiseNew p "pypyr.errors.KeyNotInContextError" (x.2 ++ " not found in the pypyr context.")
           | some v =>
-            match fmtVal FMT_FUEL child.ctx v with
+            match fmtAtKey child v with
             | .error e => raiseExc p e
             | .ok fv => ({ p with ctx := Ctx.set p.ctx x.1 fv }, .ok)
         | other => other) acc).1 := by
